@@ -1,6 +1,499 @@
-import PromVerif.Model.Metrics
-import PromVerif.Spec.Metrics
+/-
+C01 — collected values equal a reference model for every operation history.
+
+M = Model/Metrics.lean (after prometheus_client/metrics.py + values.MutexValue), generic in the value type `V`
+(class `Val`, no laws).  S = Spec/Metrics.lean (the property text as a history-indexed reference).  The theorems
+quantify over EVERY list of calls (induction, no bound), every declaration and every `V`; the IEEE facts a theorem
+needs are explicit hypotheses:
+
+  `LeTrans V`        `<=` is transitive (true of IEEE doubles, NaN included)
+  `CountExact V B`   counting by `+ 1.0` and adding two counts is exact while the result stays `<= B`
+                     (true of doubles for B = 2^53); the history is assumed no longer than `B`
+  `GoodDecl d`       histogram bounds sorted by `<=` (what `_prepare_buckets` checks); enum states pairwise distinct
+
+and the `Int` instance at the end discharges all of them (non-vacuity).
+
+Finding F7 (confirmed on the real code): `Counter.reset()` and `Info.info()` on a labelled parent raise AttributeError,
+not ValueError.  `rejected_iff_partial` therefore excludes exactly that shape, and `f7_reset_on_labelled_parent` /
+`f7_info_on_labelled_parent` show the model raises AttributeError there.
+-/
+import PromVerif.Lemmas.MetricsCollect
+import PromVerif.Lemmas.MetricsFrame
+
 namespace PromVerif.Props.C01
-open PromVerif.Generated.Metrics
+open PromVerif.Py PromVerif.Model.Metrics PromVerif.Generated.Metrics PromVerif.Lemmas.Metrics
+open PromVerif.Spec.Metrics (bucketCount observations)
+
+/-- the extractor found every site of metrics.py in the shape it understands -/
 theorem extract_ok : extractOk = true := by decide
+
+variable {V : Type} [Val V]
+
+/-! ## 1. refinement -/
+
+/-- **Collected values equal the reference, for every history.**  After ANY list of calls on freshly constructed
+metrics, `collect` returns exactly what the reference reads off the history of accepted calls: counter and summary
+totals are left-to-right sums of the accepted amounts, bucket `le=b` is the number of observations `<= b`, `_count` is
+the `+Inf` bucket, a gauge is its operations applied in order, an enum shows its last accepted state at 1; children
+appear in creation order, keyed by the stringified label values, and restart from the empty history after
+remove/clear. -/
+theorem collect_refines_spec {B : Nat} (hx : CountExact V B) (htr : LeTrans V) (ds : List (Decl V))
+    (hgood : ∀ d ∈ ds, GoodDecl d) (ops : List (Op V)) (hB : ops.length ≤ B) :
+    collect (run (Reg.fresh ds) ops).1 = Spec.Metrics.collect ds (accepted (Reg.fresh ds) ops) := by
+  obtain ⟨heq, hok⟩ := run_fresh_abs ds ops
+  rw [heq]
+  exact collect_eq hx htr ds _ hgood hok (fun h hm =>
+    histLen_mono (Nat.le_trans (accepted_length ops _) hB) h (history_len ds _ h hm))
+
+/-- the invariant behind it: every metric object is the replay of the calls accepted since each child was created -/
+theorem state_is_replay_of_accepted (ds : List (Decl V)) (ops : List (Op V)) :
+    (run (Reg.fresh ds) ops).1
+      = List.zipWith metricOf ds (Spec.Metrics.history ds (accepted (Reg.fresh ds) ops)) :=
+  (run_fresh_abs ds ops).eq
+
+/-! ## 2. rejected calls -/
+
+/-- **A raising call never mutates**, whatever it raises: the registry is unchanged, or — when the call was
+`m.labels(…).<method>(…)`, `labels(…)` returned and the METHOD raised — it is exactly the registry after that accepted
+`labels(…)` call alone (which may have created a child at zero). -/
+theorem rejected_is_frame (r : Reg V) (op : Op V) (e : PyErr) (h : (step r op).2 = .raised e) :
+    (step r op).1 = r ∨
+      ∃ t, op.touchOf = some t ∧ (step r t).2 = .ok ∧ (step r op).1 = (step r t).1 :=
+  step_frame r op e h
+
+/-- calls on the metric object itself, `remove` and `clear`: a raise leaves the registry unchanged -/
+theorem rejected_unaddressed_is_frame (r : Reg V) (op : Op V) (e : PyErr) (h : (step r op).2 = .raised e)
+    (hu : op.touchOf = none) : (step r op).1 = r := by
+  rcases step_frame r op e h with h1 | ⟨t, ht, _, _⟩
+  · exact h1
+  · rw [hu] at ht; simp at ht
+
+/-- a rejected `labels(…)` call (wrong count or names) leaves the registry unchanged -/
+theorem rejected_labels_is_frame (r : Reg V) (i : Nat) (args : List PyVal) (kw : List (Str × PyVal)) (act : Action V)
+    (e : PyErr) (h : (step r (.call i (.labels args kw) .touch)).2 = .raised e) :
+    (step r (.call i (.labels args kw) act)).1 = r := by
+  cases hout : (step r (.call i (.labels args kw) act)).2 with
+  | ok =>
+    -- the labels() call would have been accepted: impossible
+    exfalso
+    rw [step_eq] at h hout
+    simp only [Op.metric] at h hout
+    cases hr : r[i]? with
+    | none => simp [hr] at hout
+    | some m =>
+      simp only [hr, stepM] at h hout
+      cases hres : resolveLabels m.decl.labelnames args kw with
+      | error e' => simp [stepCall_labels_err m args kw e' _ hres] at hout
+      | ok key => simp [stepCall_labels_ok m args kw key _ hres, callMethod_touch] at h
+  | raised e' =>
+    rcases step_frame r _ e' hout with h1 | ⟨t, ht, hok, _⟩
+    · exact h1
+    · simp only [Op.touchOf, Option.some.injEq] at ht
+      subst ht
+      rw [h] at hok
+      simp at hok
+
+/-- lift to the observation: a raising call never changes what `collect` returns (beyond the zero child of an
+accepted `labels()`) -/
+theorem rejected_never_changes_collect (r : Reg V) (op : Op V) (e : PyErr) (h : (step r op).2 = .raised e) :
+    collect (step r op).1 = collect r ∨
+      ∃ t, op.touchOf = some t ∧ (step r t).2 = .ok ∧ collect (step r op).1 = collect (step r t).1 := by
+  rcases step_frame r op e h with h1 | ⟨t, ht, hok, heq⟩
+  · left; rw [h1]
+  · right; exact ⟨t, ht, hok, by rw [heq]⟩
+
+/-- the calls the statement rejects, for `m.<method>(…)` (`Addr.none`) and `m.labels(…).<method>(…)`:
+wrong label count or names (`BadLabels`, with the two further argument errors of `labels()`), updating a labelled
+parent without labels, a negative counter increment, an unknown enum state (`RejectedMethod`, with the one further
+ValueError of the code: Info labels that overlap the label names or are None) -/
+def RejectedCall (d : Decl V) : Addr → Action V → Prop
+  | .none, act => (d.labelnames ≠ [] ∧ isMethod d.kind act = true) ∨ (d.labelnames = [] ∧ RejectedMethod d act)
+  | .labels args kw, act =>
+    BadLabels d.labelnames args kw ∨ (¬ BadLabels d.labelnames args kw ∧ RejectedMethod d act)
+
+/-- the shape of finding F7: `Counter.reset()` / `Info.info(…)` on a labelled parent without labels -/
+def F7Shape (d : Decl V) : Addr → Action V → Prop
+  | .none, act => d.labelnames ≠ [] ∧ skipsObservableCheck d.kind act = true
+  | .labels _ _, _ => False
+
+/-
+FULL STATEMENT (does not hold of the code, finding F7):
+  theorem rejected_iff : (stepCall m addr act).2 = .raised .valueError ↔ RejectedCall m.decl addr act
+MISSING PART: the direction `RejectedCall → ValueError` for `F7Shape`: `Counter.reset()` and `Info.info()` called on a
+labelled parent raise AttributeError (they read `self._value` / `self._labelname_set` without calling
+`self._raise_if_not_observable()` first).  Everything else is proved:
+-/
+/-- **Rejected calls raise ValueError, and only they do** — outside the shape of F7. -/
+theorem rejected_iff_partial (m : Metric V) (hwf : m.single.isSome = m.decl.labelnames.isEmpty) (addr : Addr)
+    (act : Action V) (hF7 : ¬ F7Shape m.decl addr act) :
+    (stepCall m addr act).2 = .raised .valueError ↔ RejectedCall m.decl addr act := by
+  cases addr with
+  | none =>
+    simp only [stepCall, RejectedCall]
+    cases hl : m.decl.labelnames.isEmpty with
+    | true =>
+      have hln : m.decl.labelnames = [] := by simpa using hl
+      rw [hl] at hwf
+      obtain ⟨c, hc⟩ := Option.isSome_iff_exists.mp hwf
+      rw [hc, callMethod_valueError_iff]
+      simp [hln]
+    | false =>
+      have hln : m.decl.labelnames ≠ [] := by simpa using hl
+      rw [hl] at hwf
+      have hc : m.single = none := by simpa using hwf
+      rw [hc, parentCall_valueError_iff]
+      have hskip : skipsObservableCheck m.decl.kind act = false := by
+        cases hs : skipsObservableCheck m.decl.kind act with
+        | false => rfl
+        | true => exact absurd ⟨hln, hs⟩ hF7
+      simp [hln, hskip]
+  | labels args kw =>
+    simp only [RejectedCall]
+    cases hres : resolveLabels m.decl.labelnames args kw with
+    | error e =>
+      obtain ⟨he, hb⟩ := resolve_error _ _ _ _ hres
+      subst he
+      simp [stepCall_labels_err m args kw _ _ hres, hb]
+    | ok key =>
+      have hb := resolve_ok _ _ _ _ hres
+      rw [stepCall_labels_ok m args kw key _ hres]
+      simp only [callMethod_valueError_iff]
+      simp [hb]
+
+/-- every metric object of a reachable registry is well formed in the sense `rejected_iff_partial` needs -/
+theorem reachable_wf (ds : List (Decl V)) (ops : List (Op V)) :
+    ∀ m ∈ (run (Reg.fresh ds) ops).1, m.single.isSome = m.decl.labelnames.isEmpty := by
+  rw [state_is_replay_of_accepted]
+  generalize Spec.Metrics.history ds (accepted (Reg.fresh ds) ops) = hs
+  induction ds generalizing hs with
+  | nil => intro m hm; simp at hm
+  | cons d ds ih =>
+    cases hs with
+    | nil => intro m hm; simp at hm
+    | cons h hs =>
+      intro m hm
+      simp only [List.zipWith, List.mem_cons] at hm
+      rcases hm with hm | hm
+      · subst hm
+        simp only [metricOf]
+        cases d.labelnames.isEmpty <;> simp
+      · exact ih hs m hm
+
+/-- **F7 in the model**: `Counter(…, labelnames).reset()` on the labelled parent raises AttributeError and changes
+nothing -/
+theorem f7_reset_on_labelled_parent (m : Metric V) (hk : m.decl.kind = .counter) (hl : m.decl.labelnames ≠ [])
+    (hs : m.single = none) : stepCall m .none .reset = (m, .raised .attributeError) := by
+  have hl' : m.decl.labelnames.isEmpty = false := by simpa using hl
+  have h2 := parentCall_attributeError m.decl (.reset : Action V) (by rw [hk]; rfl)
+  have h1 := callMethod_none m.decl false (.reset : Action V)
+  simp only [stepCall, hs, hl']
+  rw [Prod.ext_iff]
+  exact ⟨by cases m; simp_all, h2⟩
+
+/-- **F7 in the model**: `Info(…, labelnames).info(val)` on the labelled parent raises AttributeError whatever `val` -/
+theorem f7_info_on_labelled_parent (m : Metric V) (hk : m.decl.kind = .info) (hl : m.decl.labelnames ≠ [])
+    (hs : m.single = none) (val : List (Str × Option Str)) :
+    stepCall m .none (.info val) = (m, .raised .attributeError) := by
+  have hl' : m.decl.labelnames.isEmpty = false := by simpa using hl
+  have h2 := parentCall_attributeError m.decl (.info val : Action V) (by rw [hk]; rfl)
+  have h1 := callMethod_none m.decl false (.info val : Action V)
+  simp only [stepCall, hs, hl']
+  rw [Prod.ext_iff]
+  exact ⟨by cases m; simp_all, h2⟩
+
+/-- `remove` raises ValueError exactly for a metric declared without labels or a wrong number of values, and nothing
+else -/
+theorem remove_rejected_iff (m : Metric V) (vs : List PyVal) :
+    ((stepRemove m vs).2 = .raised .valueError ↔
+        (m.decl.labelnames = [] ∨ vs.length ≠ m.decl.labelnames.length)) ∧
+      ((stepRemove m vs).2 = .ok ∨ (stepRemove m vs).2 = .raised .valueError) := by
+  unfold stepRemove
+  by_cases h1 : m.decl.labelnames.isEmpty = true
+  · have : m.decl.labelnames = [] := by simpa using h1
+    simp [this]
+  · have hne : m.decl.labelnames ≠ [] := by simpa using h1
+    by_cases h2 : vs.length = m.decl.labelnames.length <;> simp [h1, h2, hne]
+
+/-! ## 3. label addressing, remove, clear -/
+
+/-- **Positional, keyword (in any permutation) and non-string values that stringify equally address one child**: the
+key is the tuple of stringified values in DECLARATION order. -/
+theorem label_addressing (ln : List Str) (hne : ln ≠ []) (hnd : ln.Nodup) (vals args : List PyVal)
+    (hlen : vals.length = ln.length) (hstr : vals.map pyStr = args.map pyStr)
+    (kw : List (Str × PyVal)) (hperm : kw.Perm (ln.zip vals)) :
+    resolveLabels ln args [] = .ok (args.map pyStr) ∧ resolveLabels ln [] kw = .ok (args.map pyStr) := by
+  have halen : args.length = ln.length := by
+    have := congrArg List.length hstr
+    simp at this
+    omega
+  constructor
+  · have hb : ¬ BadLabels ln args [] := by
+      unfold BadLabels
+      simp [hne, halen]
+    simpa using resolve_good ln args [] hb
+  · have hkeys : (kw.map (·.1)).Perm ln := by
+      have := hperm.map (·.1)
+      rwa [List.map_fst_zip (by omega)] at this
+    have hkw : kw ≠ [] := by
+      intro e
+      subst e
+      have := hkeys.length_eq
+      simp at this
+      exact hne (List.eq_nil_of_length_eq_zero this.symm)
+    have hb : ¬ BadLabels ln [] kw := by
+      unfold BadLabels
+      simp [hne, hkw, hkeys]
+    have hknd : (kw.map (·.1)).Nodup := hkeys.nodup_iff.mpr hnd
+    rw [resolve_good ln [] kw hb, if_neg hkw, ← hstr]
+    congr 1
+    apply map_kwValue_zip kw ln vals hlen
+    intro p hp
+    have hm : (p.1, p.2) ∈ kw := hperm.symm.subset hp
+    unfold Spec.Metrics.kwValue
+    rw [find_of_mem_nodup p.1 p.2 kw hknd hm]
+
+theorem terase_cons {β : Type} (k : List Str) (kv : List Str × β) (t : List (List Str × β)) :
+    terase k (kv :: t) = if kv.1 = k then terase k t else kv :: terase k t := by
+  unfold terase
+  by_cases h : kv.1 = k <;> simp [List.filter, h]
+
+theorem tlookup_terase {β : Type} (k k' : List Str) (t : List (List Str × β)) :
+    tlookup k' (terase k t) = if k' = k then none else tlookup k' t := by
+  induction t with
+  | nil => simp [terase, tlookup]
+  | cons kv t ih =>
+    rw [terase_cons]
+    by_cases hk : kv.1 = k
+    · rw [if_pos hk, ih]
+      by_cases hk' : k' = k
+      · simp [hk']
+      · have : ¬ kv.1 = k' := fun e => hk' (e ▸ hk)
+        simp [hk', tlookup, this]
+    · rw [if_neg hk]
+      simp only [tlookup]
+      by_cases hk' : kv.1 = k'
+      · have : ¬ k' = k := fun e => hk (hk' ▸ e)
+        simp [hk', this]
+      · simp [hk', ih]
+
+/-- **`remove` deletes exactly the addressed child**: it returns, the addressed key is gone, every other child is
+untouched and keeps its place. -/
+theorem remove_exact (m : Metric V) (vs : List PyVal) (hne : m.decl.labelnames ≠ [])
+    (hlen : vs.length = m.decl.labelnames.length) :
+    (stepRemove m vs).2 = .ok ∧
+      (stepRemove m vs).1.children = m.children.filter (fun kc => kc.1 ≠ vs.map pyStr) ∧
+      (∀ k, tlookup k (stepRemove m vs).1.children = if k = vs.map pyStr then none else tlookup k m.children) ∧
+      (stepRemove m vs).1.single = m.single ∧ (stepRemove m vs).1.decl = m.decl := by
+  have h1 : m.decl.labelnames.isEmpty = false := by simpa using hne
+  have hs : stepRemove m vs = ({ m with children := terase (vs.map pyStr) m.children }, .ok) := by
+    simp [stepRemove, h1, hlen]
+  rw [hs]
+  exact ⟨rfl, rfl, fun k => tlookup_terase _ k _, rfl, rfl⟩
+
+/-- **`clear` deletes every child** of a labelled metric (and exposes nothing afterwards) -/
+theorem clear_exact (m : Metric V) (hne : m.decl.labelnames ≠ []) :
+    (stepClear m).2 = .ok ∧ (stepClear m).1.children = [] ∧ metricSamples (stepClear m).1 = [] ∧
+      (stepClear m).1.decl = m.decl := by
+  have h1 : m.decl.labelnames.isEmpty = false := by simpa using hne
+  have h2 : hasLock m.decl = true := by simp [hasLock, h1]
+  simp [stepClear, h2, metricSamples, h1]
+
+/-- **A removed child restarts from zero when addressed again**: after `remove(vs)`, a call addressed to the same
+key finds a child fresh from `_metric_init` (every cell zero, first enum state, empty info) with just that call
+applied. -/
+theorem recreated_child_is_zero (m : Metric V) (vs : List PyVal) (hne : m.decl.labelnames ≠ [])
+    (hlen : vs.length = m.decl.labelnames.length) (args : List PyVal) (kw : List (Str × PyVal)) (act : Action V)
+    (hres : resolveLabels m.decl.labelnames args kw = .ok (vs.map pyStr)) :
+    tlookup (vs.map pyStr) (stepCall (stepRemove m vs).1 (.labels args kw) act).1.children
+      = some (upd m.decl act (metricInit m.decl.kind)) := by
+  obtain ⟨_, _, hlk, _, hdecl⟩ := remove_exact m vs hne hlen
+  have hres' : resolveLabels (stepRemove m vs).1.decl.labelnames args kw = .ok (vs.map pyStr) := by
+    rw [hdecl]; exact hres
+  have hnone : tlookup (vs.map pyStr) (stepRemove m vs).1.children = none := by rw [hlk]; simp
+  rw [stepCall_labels_ok _ args kw _ act hres']
+  simp only [getChild, hnone, hdecl]
+  rw [treplace_append_new _ _ _ _ hnone]
+  exact tlookup_append_new _ _ _ hnone
+
+/-- the same after `clear()` -/
+theorem recreated_after_clear_is_zero (m : Metric V) (hne : m.decl.labelnames ≠ []) (args : List PyVal)
+    (kw : List (Str × PyVal)) (act : Action V) (key : List Str)
+    (hres : resolveLabels m.decl.labelnames args kw = .ok key) :
+    (stepCall (stepClear m).1 (.labels args kw) act).1.children
+      = [(key, upd m.decl act (metricInit m.decl.kind))] := by
+  obtain ⟨_, hch, _, hdecl⟩ := clear_exact m hne
+  have hres' : resolveLabels (stepClear m).1.decl.labelnames args kw = .ok key := by rw [hdecl]; exact hres
+  rw [stepCall_labels_ok _ args kw _ act hres']
+  simp [getChild, hch, tlookup, hdecl, treplace]
+
+/-! ## 4. histogram -/
+
+/-- **Buckets are cumulative counts.**  For bounds sorted by a transitive `<=`, after any accepted calls the value
+exposed for bucket `j` is the number of observations `o` with `o <= bounds[j]` — although the code stores
+non-cumulative counts and adds them up at collect time.  NaN observations (no bound takes them) are covered. -/
+theorem histogram_cumulative {B : Nat} (hx : CountExact V B) (htr : LeTrans V) (d : Decl V) (bs : List (V × Str))
+    (hk : d.kind = .histogram bs) (hp : (bs.map (·.1)).Pairwise (fun x y => Val.le x y = true))
+    (acts : List (Action V)) (hlen : acts.length ≤ B) :
+    cumulate Val.zero (childOf d acts).buckets
+      = bs.map (fun b => Val.ofNat (bucketCount (observations acts) b.1)) := by
+  obtain ⟨_, h2⟩ := histogram_cells d bs hk acts
+  have hobs := observations_length_le acts
+  have hc := cumulate_cells hx htr (bs.map (·.1)) (observations acts) 0 hp (by omega)
+  rw [h2]
+  simpa [cellsOf, hx.zero_eq, List.map_map, Function.comp_def, bucketCount] using hc
+
+theorem cumulate_length (acc : V) : ∀ cs : List V, (cumulate acc cs).length = cs.length
+  | [] => rfl
+  | c :: cs => by simp [cumulate, cumulate_length _ cs]
+
+theorem getLast?_zip_of_length_eq {α β : Type} : ∀ (l₁ : List α) (l₂ : List β), l₁.length = l₂.length →
+    (l₁.zip l₂).getLast? = (match l₁.getLast?, l₂.getLast? with
+      | some a, some b => some (a, b)
+      | _, _ => none)
+  | [], [], _ => rfl
+  | [], _ :: _, h => by simp at h
+  | _ :: _, [], h => by simp at h
+  | [a], [b], _ => rfl
+  | [a], _ :: _ :: _, h => by simp at h
+  | _ :: _ :: _, [b], h => by simp at h
+  | a :: a' :: l₁, b :: b' :: l₂, h => by
+    have ih := getLast?_zip_of_length_eq (a' :: l₁) (b' :: l₂) (by simpa using h)
+    simp only [List.zip_cons_cons, List.getLast?_cons_cons] at ih ⊢
+    exact ih
+
+/-- **The `+Inf` bucket equals `_count`**, structurally: in the samples of ANY histogram child state the value of
+the last `_bucket` sample (the bound `_prepare_buckets` appended or found last) is the value of the `_count` sample —
+also after NaN observations, which no bucket takes. -/
+theorem inf_bucket_eq_count (d : Decl V) (bs : List (V × Str)) (hk : d.kind = .histogram bs) (c : Child V)
+    (hlen : c.buckets.length = bs.length) (hne : bs ≠ []) :
+    ∃ (b : V × Str) (v : V) (rest : List (Sample V)),
+      bs.getLast? = some b ∧
+      (((bs.zip (cumulate Val.zero c.buckets)).map (fun ba => (⟨"_bucket".toList, leLabel ba.1.2, ba.2⟩ : Sample V))).getLast?
+        = some ⟨"_bucket".toList, leLabel b.2, v⟩) ∧
+      childSamples d c
+        = (bs.zip (cumulate Val.zero c.buckets)).map (fun ba => ⟨"_bucket".toList, leLabel ba.1.2, ba.2⟩)
+            ++ [⟨"_count".toList, [], v⟩] ++ rest := by
+  have hcl := cumulate_length (Val.zero : V) c.buckets
+  have hzip := getLast?_zip_of_length_eq bs (cumulate Val.zero c.buckets) (by omega)
+  cases hb : bs.getLast? with
+  | none => exact absurd (List.getLast?_eq_none_iff.mp hb) hne
+  | some b =>
+    have hcne : c.buckets ≠ [] := by
+      intro e; rw [e] at hlen; simp at hlen
+      exact hne (List.eq_nil_of_length_eq_zero hlen.symm)
+    obtain ⟨v, hv⟩ := cumulate_getLast (Val.zero : V) c.buckets hcne
+    rw [hb, hv] at hzip
+    refine ⟨b, v, (if sumExposed (bs.map (·.1)) then [⟨"_sum".toList, [], c.sum⟩] else []), rfl, ?_, ?_⟩
+    · rw [List.getLast?_map, hzip]; rfl
+    · simp only [childSamples, hk, hv, Option.getD_some]
+
+/-- **Buckets are monotone**: a bucket never holds fewer observations than an earlier one -/
+theorem buckets_monotone (htr : LeTrans V) (bounds : List V)
+    (hp : bounds.Pairwise (fun x y => Val.le x y = true)) (obs : List V) :
+    (bounds.map (fun b => bucketCount obs b)).Pairwise (fun x y => x ≤ y) := by
+  rw [List.pairwise_map]
+  exact hp.imp (fun {a b} h => countP_le_mono htr obs a b h)
+
+/-- the replayed buckets always have one cell per bound, so `inf_bucket_eq_count` applies to every reachable child -/
+theorem observeBuckets_length (o : V) : ∀ (bs cs : List V), (observeBuckets o bs cs).length = cs.length
+  | [], cs => by cases cs <;> rfl
+  | _ :: _, [] => rfl
+  | b :: bs, c :: cs => by
+    simp only [observeBuckets]
+    split
+    · rfl
+    · simp [observeBuckets_length o bs cs]
+
+theorem reachable_buckets_length (d : Decl V) (bs : List (V × Str)) (hk : d.kind = .histogram bs)
+    (acts : List (Action V)) : (childOf d acts).buckets.length = bs.length := by
+  obtain ⟨_, h2⟩ := histogram_cells d bs hk acts
+  rw [h2]
+  generalize observations acts = obs
+  have : ∀ (cs : List V), cs.length = bs.length →
+      (obs.foldl (fun cs o => observeBuckets o (bs.map (·.1)) cs) cs).length = bs.length := by
+    induction obs with
+    | nil => intro cs h; exact h
+    | cons o os ih => intro cs h; exact ih _ (by rw [observeBuckets_length]; exact h)
+  exact this _ (by simp)
+
 end PromVerif.Props.C01
+
+/-! ## 5. non-vacuity: every hypothesis above is met by a concrete non-trivial state (`V := Int`) -/
+
+namespace PromVerif.Props.C01.Example
+open PromVerif.Py PromVerif.Model.Metrics PromVerif.Generated.Metrics PromVerif.Lemmas.Metrics PromVerif.Props.C01
+
+/-- the integers as a value structure: every law the theorems ask for holds, for every bound `B` -/
+instance intVal : Val Int where
+  zero := 0
+  one := 1
+  add := fun a b => a + b
+  neg := fun a => -a
+  le := fun a b => decide (a ≤ b)
+  lt := fun a b => decide (a < b)
+  ofNat := fun n => (n : Int)
+  inf := 1000000
+  beq := fun a b => a == b
+
+theorem int_countExact (B : Nat) : CountExact Int B :=
+  ⟨rfl, rfl, fun n m _ => by simp [Val.add, Val.ofNat]⟩
+
+theorem int_leTrans : LeTrans Int := by
+  intro a b c h1 h2
+  simp only [Val.le, decide_eq_true_eq] at *
+  omega
+
+/-- a 3-metric registry: a labelled counter, an unlabelled histogram with a negative first bound, a labelled enum -/
+def decls : List (Decl Int) :=
+  [ ⟨['c'], .counter, [['l'], ['k']]⟩,
+    ⟨['h'], .histogram [(-1, "-1.0".toList), (5, "5.0".toList), (1000000, "inf".toList)], []⟩,
+    ⟨['e'], .enum [['u', 'p'], ['d', 'n']], [['z']]⟩ ]
+
+/-- a 6-call history: positional and keyword addressing of one child, a rejected negative increment, two
+observations (one exactly on a bound), a state change -/
+def ops : List (Op Int) :=
+  [ .call 0 (.labels [.str ['a'], .bool true] []) (.inc 2),
+    .call 0 (.labels [] [(['k'], .str "True".toList), (['l'], .str ['a'])]) (.inc 3),
+    .call 0 (.labels [.str ['a'], .bool true] []) (.inc (-1)),
+    .call 1 .none (.observe 5),
+    .call 1 .none (.observe 7),
+    .call 2 (.labels [.none] []) (.state ['d', 'n']) ]
+
+theorem decls_good : ∀ d ∈ decls, GoodDecl d := by
+  intro d hd
+  simp only [decls, List.mem_cons, List.mem_nil_iff, or_false] at hd
+  rcases hd with rfl | rfl | rfl
+  · trivial
+  · simp only [GoodDecl]; decide
+  · simp only [GoodDecl]; decide
+
+/-- `collect_refines_spec` applies to it -/
+example : collect (run (Reg.fresh decls) ops).1 = Spec.Metrics.collect decls (accepted (Reg.fresh decls) ops) :=
+  collect_refines_spec (int_countExact 6) int_leTrans decls decls_good ops (by decide)
+
+/-- what the history exposes on the counter: one child `(a, True)` holding 2 + 3 (the negative increment was
+rejected, the keyword call reached the same child) -/
+example :
+    (run (Reg.fresh decls) (ops.take 1 ++ ops.drop 2)).2 = [.ok, .raised .valueError, .ok, .ok, .ok] := by decide
+
+example : (step (Reg.fresh decls) (.call 0 .none .reset)).2 = .raised .attributeError := by decide   -- F7
+example : (step (Reg.fresh decls) (.call 0 .none (.inc 1))).2 = .raised .valueError := by decide
+
+/-- `rejected_is_frame` / `rejected_iff_partial`: a raising step on a non-trivial registry -/
+example : ∃ e, (step (run (Reg.fresh decls) (ops.take 1)).1 (.call 0 (.labels [.str ['a'], .bool true] []) (.inc (-1)))).2
+    = .raised e := ⟨.valueError, by decide⟩
+
+/-- `label_addressing`: two labels, keyword arguments in the other order, a bool standing in for the text `True` -/
+example : resolveLabels [['l'], ['k']] [.str ['a'], .str "True".toList] [] = .ok [['a'], "True".toList] ∧
+    resolveLabels [['l'], ['k']] [] [(['k'], .bool true), (['l'], .str ['a'])] = .ok [['a'], "True".toList] :=
+  label_addressing [['l'], ['k']] (by decide) (by decide) [.str ['a'], .bool true] [.str ['a'], .str "True".toList]
+    rfl rfl _ (by decide)
+
+/-- `histogram_cumulative` / `buckets_monotone` hypotheses: the bounds of `h` are sorted -/
+example : ([-1, 5, 1000000] : List Int).Pairwise (fun x y => Val.le x y = true) := by decide
+
+/-- `remove_exact`, `clear_exact`, `recreated_child_is_zero`: the counter is a labelled metric and `remove` gets two
+values -/
+example : (⟨['c'], .counter, [['l'], ['k']]⟩ : Decl Int).labelnames ≠ [] := by decide
+
+end PromVerif.Props.C01.Example
